@@ -941,6 +941,13 @@ impl CommitEnv for LsmCommitEnv {
 			processed_batch.add_record(entry.kind, entry.key.clone(), encoded_value, timestamp)?;
 		}
 
+		// A batch that cannot fit into an empty memtable would be logged and
+		// then fail half-way through its memtable apply. Refuse it here, before
+		// anything is written.
+		if MemTable::can_never_fit(&processed_batch, self.core.opts.max_memtable_size) {
+			return Err(Error::BatchTooLarge);
+		}
+
 		// Write to WAL for durability
 		let enc_bytes = processed_batch.encode()?;
 		let mut wal_guard = self.core.wal.write();
